@@ -75,6 +75,25 @@ TABLE = {
              "scope n<=8 (12 thorough), b<=n is enumerated exhaustively, compiled and eager.",
         note="stored rows pairwise distinct; fixed-size batches so an epoch has ceil(n/b) batches; RAR generators excluded (C16/C17)",
         ref="DESIGN.md §4 C09, Appendix A.2"),
+    "C10": dict(
+        technique="runtime oracle monitor: wrappers from the real create_* functions vs independent numpy forward passes",
+        level="exploration",
+        text="PINN / shared-output PINNs / SPINN / HYPERPINN objects created by the real factory functions on random "
+             "architectures are evaluated and compared with forward passes written in numpy (layer walk, transforms "
+             "in the stated order, explicit sum_r prod_d contraction per output slot, manual split of the "
+             "hyper-network output in parameter-leaf order); trailing axis, scalar vs (1,) time and bare parameters "
+             "are asserted on every call.",
+        note="'output slice' read as the wrapper's output_slice; shared-output networks have >= 2 outputs",
+        ref="DESIGN.md §4 C10"),
+    "C11": dict(
+        technique="differential runtime monitor: forward-mode separable path vs reverse-mode pointwise twin (closed forms for attribution)",
+        level="exploration",
+        text="The same function is wrapped in the real SPINN and in a pointwise PINN built from the same leaves "
+             "(analytic separable fields and random create_SPINN networks); *_fwd vs *_rev operators, the five "
+             "built-in PDE residuals and the boundary / initial-condition / normalisation terms are compared at "
+             "every grid index with all coordinates different; closed forms name the side that is wrong.",
+        note="observation term unsupported for separable networks; boundary terms d<=2",
+        ref="DESIGN.md §4 C11"),
     "C14": dict(
         technique="runtime structural monitor: factors recovered from each batch must rebuild it and lie in the stores",
         level="exploration",
